@@ -213,15 +213,31 @@ func init() {
 				return replayFile(*replay, enc)
 			}
 			id := 0
-			for _, errWrites := range []bool{false, true} {
-				for _, api := range []bool{false, true} {
+			for _, variant := range []int{0, 1, 2, 3, 4, 5} {
+				errWrites, api, lockless := variant&1 == 1, variant&2 == 2, variant >= 4
+				{
 					cfg := faultCfg(errWrites, api)
+					if lockless {
+						// without the lock module no hook saves the user on the way: the handler's own write is
+						// the only thing that persists the consumption of a one-time value
+						cfg.API = false
+						var mods []string
+						for _, m := range cfg.Mods {
+							if m != "lock" {
+								mods = append(mods, m)
+							}
+						}
+						cfg.Mods = mods
+					}
 					g := &flowGen{cfg}
 					for fi, f := range flows() {
 						if (fi % *shards) != *shard {
 							continue
 						}
 						if *only != "" && !strings.HasPrefix(f.name, *only) {
+							continue
+						}
+						if lockless && !(strings.HasSuffix(f.name, "-rc") || f.name == "otp-login" || f.name == "remember") {
 							continue
 						}
 						base := append(append([]SymStep{}, seeds()...), f.prefix(g)...)
